@@ -59,12 +59,9 @@ impl Ctx {
         // totality of the strict entry point
         match &st {
             GOut::Panic(m) => {
+                // (F12 was fixed in the code: a panic of the strict entry point is an ordinary violation)
                 self.out.count("strict_panics", 1);
-                if m.contains(F12_MSG) {
-                    self.out.coq_case("known:F12", format!("F12_class {}", cstr(s)), json!({"what": "strict parse_query panics", "msg": m, "query": show(s), "from": what}), true);
-                } else {
-                    self.out.spec_checked(false, json!({"what": "strict parse_query panics", "msg": m, "query": show(s), "from": what}));
-                }
+                self.out.spec_checked(false, json!({"what": "strict parse_query panics", "msg": m, "query": show(s), "from": what}));
             }
             _ => self.out.spec_checked(true, json!(null)),
         }
@@ -189,7 +186,11 @@ fn main() {
     let mut cx = Ctx { out: CaseOut::new(&args.out, HEADER, 170), tie_fuzz_budget: if thorough { 3000 } else { 250 } };
 
     // ---------------- corpus: witnesses of the known findings ----------------
-    for s in ["+\t*", "- *", "a + *^", "x -\n*)"] { cx.grammar_checks(s, "corpus-F12", true); }
+    // regression cases of the fixed F12: an exists-query without a field name is a syntax error, not a panic
+    for s in ["+\t*", "- *", "a + *^", "x -\n*)", "*\u{a0}", "*\u{3000}TO^   a"] {
+        let st = cx.grammar_checks(s, "regression-F12", true);
+        cx.out.spec_checked(st == GOut::Err, json!({"what": "exists-query without a field must be rejected with a parse error", "query": show(s), "impl": format!("{st:?}")}));
+    }
     for s in [", TO /", "/ab", "f:/ab", "a /x", "n:[1 TO 5 ]", "NOT\ta"] { cx.grammar_checks(s, "corpus-F13", true); }
     for s in ["IN[\u{a0}x", "f: IN [a \u{3000}"] { cx.grammar_checks(s, "corpus-F162", true); }
     for s in ["hello\nbody:y", "a\tb:c"] { cx.grammar_checks(s, "corpus-F160", true); }
@@ -389,14 +390,13 @@ fn fuzz_stream(cx: &mut Ctx, rng: &mut Rng, thorough: bool) {
     let trace = std::env::var("C16_TRACE").ok();
     let one = |cx: &mut Ctx, s: &str, what: &str, tie: bool| {
         if let Some(t) = &trace { let _ = std::fs::write(t, s); }
-        let st = cx.grammar_checks(s, what, tie);
+        cx.grammar_checks(s, what, tie);
         if risky_hang(s) { return; }
         for (name, p) in [("default", &qp), ("conjunction", &qp_all)] {
             match guarded(|| p.parse_query(s).is_ok()) {
                 Ok(_) => cx.out.spec_checked(true, json!(null)),
                 Err(m) => {
-                    if m.contains(F12_MSG) && matches!(st, GOut::Panic(_)) { cx.out.count("queryparser_panics_F12", 1); /* same panic, already classified on the grammar entry point */ }
-                    else { cx.out.spec_checked(false, json!({"what": "QueryParser::parse_query panics", "parser": name, "msg": m, "query": show(s)})); }
+                    cx.out.spec_checked(false, json!({"what": "QueryParser::parse_query panics", "parser": name, "msg": m, "query": show(s)}));
                 }
             }
             match guarded(|| p.parse_query_lenient(s).1.len()) {
